@@ -52,6 +52,14 @@ def gc(x, y, k=2.0):
     return np.cos(k * x) + y
 
 
+def fa(x, y, w=None):
+    return w[0] * x + w[1] * y
+
+
+def fat(x, y, *, t, w=None):
+    return w[0] * x + w[1] * y + t
+
+
 OPS = [operator.add, operator.sub, operator.mul, operator.truediv, operator.pow]
 OPN = ["Add", "Sub", "Mul", "Div", "Pow"]
 
@@ -305,6 +313,33 @@ def run(rep: common.Report, tier: str, seed: int, replay=None) -> int:
                       Ga != Gb and not (Ga == Gb) and (Ga * 2 + 1) != (Gb * 2 + 1) and Ga == _t.Parameter(gs, k=2.0)
                       and pickle.loads(pickle.dumps(Ga + Pa)) != (Gb + Pa)
                       and float(Ga(X, Y)) == float(gs(X, Y)) and float(Gb(X, Y)) == float(gc(X, Y))))
+    # the rest of the parameter vocabulary: the Constant parameter, operators given by their symbol, array-valued keyword arguments
+    from tdgl.parameter import Constant as _Const, CompositeParameter as _Comp
+    try:
+        c3, c3b, c2 = _Const(3.0), _Const(3.0), _Const(2.0)
+        kw_checks.append(("Constant parameters evaluate to their value, combine pointwise and compare by value",
+                          float(c3(X, Y)) == 3.0 and float((Pa + c3)(X, Y)) == f2(X, Y, a=1.0) + 3.0 and float((c3 * c2 - Pa)(X, Y)) == 6.0 - f2(X, Y, a=1.0)
+                          and c3 == c3b and c3 != c2 and (Pa + c3) == (Pa + c3b) and (Pa + c3) != (Pa + c2)
+                          and float(_Const(2.5, dimensions=3)(X, Y, Z)) == 2.5 and not (Pa + c3).time_dependent))
+        sym_ok = True
+        for sym_, op_ in (("+", operator.add), ("-", operator.sub), ("*", operator.mul), ("/", operator.truediv), ("**", operator.pow)):
+            cs_ = _Comp(Pa, Pb, sym_)
+            sym_ok = sym_ok and cs_ == _Comp(Pa, Pb, op_) and float(cs_(X, Y)) == float(op_(f2(X, Y, a=1.0), f2(X, Y, a=2.0)))
+        try:
+            _Comp(Pa, Pb, "%")
+            sym_ok = False
+        except (ValueError, TypeError):
+            pass
+        kw_checks.append(("an operator given by its symbol is that operator; an unknown symbol is refused", sym_ok))
+        Wa, Wb, Wc = (_t.Parameter(fa, w=np.array([1.0, 2.0])), _t.Parameter(fa, w=np.array([1.0, 2.0])), _t.Parameter(fa, w=np.array([2.0, 1.0])))
+        Wt = _t.Parameter(fat, time_dependent=True, w=np.array([0.5, -1.5]))
+        kw_checks.append(("array-valued keyword arguments are part of the value and of the structure",
+                          Wa == Wb and Wa != Wc and (Wa * 2) == (Wb * 2) and (Wa * 2) != (Wc * 2)
+                          and float(Wa(X, Y)) == fa(X, Y, w=[1.0, 2.0]) and float(Wc(X, Y)) == fa(X, Y, w=[2.0, 1.0])
+                          and all(float((Wt + Wc)(X, Y, t=t_)) == fat(X, Y, t=t_, w=[0.5, -1.5]) + fa(X, Y, w=[2.0, 1.0]) for t_ in (T, T, T + 1.0, T))
+                          and pickle.loads(pickle.dumps(Wt * Wa)) == (Wt * Wb)))
+    except Exception as e:  # noqa: BLE001
+        rep.violation(f"Constant / symbolic operators / array keyword arguments raised {type(e).__name__}: {e}"[:200], {})
     Ka, Kb, Kc = _t.Parameter(fk, p=1.0, q=2.0), _t.Parameter(fk, q=2.0, p=1.0), _t.Parameter(fk, p=2.0, q=1.0)
     kw_checks += [
         ("keyword arguments written in another order are the same parameter", Ka == Kb and (Ka * 2) == (Kb * 2)
